@@ -683,3 +683,31 @@ class real_cc_init:
         # the operand is left as it was: no field assigned, its lists and dicts not written to
         yield "operand-unchanged", both(all(a.canv.fields.get(k) is v for k, v in w.fields.items()) and len(a.canv.fields) == len(w.fields),
                                         w.coords.d == w.coords_d, w.shortcuts.d == w.shortcuts_d, w.shards is None or w.shards.seq is w.seq)
+
+
+# ---- CompositeCanvas.rows over the real fields, for shard lists that are spelled out completely (0 .. 3 shards, e.g.
+# the single shard CompositeCanvas(leaf) builds, a padded single shard): the body iterates over the whole list, so the
+# unknown tail is out of reach; for these lists rows() is the observer rows_of that `real_rows` assumes in general
+
+
+def _fresh_spelled_out(st, hint):
+    k = st.fork(4)
+    shards = []
+    for i in range(k):
+        r = st.fresh_int(f"rows{i}")
+        st.assume(r >= 0)
+        cv = ListOf(CVIEW_HELD).fresh(st, f"cviews{i}")
+        cv.entry_seq = cv.seq
+        shards.append((r, cv))
+    return LRef(tuple(shards))
+
+
+@contract(CV + "CompositeCanvas.rows", property=("C02", "C01"), alias="spelled-out-shards", replayable=False)
+class rows_spelled_out:
+    self_shape = Obj(_canvas.CompositeCanvas, dict(shards=S.Custom(_fresh_spelled_out, "shards")))
+    result = Nat
+    raises = ()
+
+    def ensures(old, s, a, result):
+        yield "sum-of-the-shard-heights", result == rows_of(old.shards)
+        yield "reads-only", s.fields["shards"].seq is old.fields["shards"].seq
